@@ -110,6 +110,7 @@ template <class P> struct H {
         std::string seq = std::string(space ? "space" : "body") + "." + "XYZ"[a1] + "XYZ"[a2] + "XYZ"[a3];
         std::string key = fn("three") + "." + seq + "." + cls;
         vh::D(key);
+        vh::D(fn("three") + ".extraction." + extractionBranch(R.asMat33(), space, a1, a2, a3));
         proper(key, R.asMat33());
         Rot E1(th1, AX(a1)), E2(th2, AX(a2)), E3(th3, AX(a3));
         M33 prod = space ? M33(E3.asMat33() * E2.asMat33() * E1.asMat33()) : M33(E1.asMat33() * E2.asMat33() * E3.asMat33());
@@ -123,6 +124,45 @@ template <class P> struct H {
             vh::Line i2 = vh::I(fn("toThree")); i2.d(space).d(a1).d(a2).d(a3); putM(i2, R.asMat33()); i2.emit(); tol();
             vh::O(fn("toThree")).d((double)back[0]).d((double)back[1]).d((double)back[2]).emit();
             vh::D(fn("toThree") + "." + seq + "." + cls);
+        }
+    }
+    // which branch of the three-angle extraction the library takes for sequence (bs,a1,a2,a3) on R (recomputed here for
+    // the D tag only: regular / singular with positive or negative test value / degenerate two-angle dispatch)
+    static std::string extractionBranch(const M33& m, bool space, int a1, int a2, int a3) {
+        if (a1 == a2 || a2 == a3) return "degenerate";
+        int i = space ? a3 : a1, j = a2, k3 = space ? a1 : a3;
+        bool rev = ((i + 2) % 3) == j; double pm = rev ? -1 : 1;
+        if (i == k3) { int k = 3 - i - j;
+            double rs = std::sqrt(((double)m[i][j] * m[i][j] + (double)m[i][k] * m[i][k] + (double)m[j][i] * m[j][i] + (double)m[k][i] * m[k][i]) / 2);
+            return rs > 4 * Eps ? "iji.regular" : ((double)m[i][i] > 0 ? "iji.singular_pos" : "iji.singular_neg"); }
+        double rs = std::sqrt(((double)m[i][i] * m[i][i] + (double)m[i][j] * m[i][j] + (double)m[j][k3] * m[j][k3] + (double)m[k3][k3] * m[k3][k3]) / 2);
+        return rs > 4 * Eps ? "ijk.regular" : (pm * (double)m[i][k3] > 0 ? "ijk.singular_pos" : "ijk.singular_neg");
+    }
+    // extraction from a rotation that was NOT built by the same-sequence constructor (quaternion, product of rotations):
+    // its entries carry absolute (not relative) rounding error, so near gimbal lock the individual angles are ill
+    // conditioned like eps/|cos th2| (eps/|sin th2| for i-j-i); the rebuilt rotation is compared with the input
+    static void extractGeneral(const Rot& R, bool space, int a1, int a2, int a3, const std::string& cls) {
+        BodyOrSpaceType bs = space ? SpaceRotationSequence : BodyRotationSequence;
+        Vec<3, P> back = R.convertThreeAxesRotationToThreeAngles(bs, AX(a1), AX(a2), AX(a3));
+        std::string seq = std::string(space ? "space" : "body") + "." + "XYZ"[a1] + "XYZ"[a2] + "XYZ"[a3];
+        std::string br = extractionBranch(R.asMat33(), space, a1, a2, a3);
+        vh::Line i2 = vh::I(fn("toThree")); i2.d(space).d(a1).d(a2).d(a3); putM(i2, R.asMat33()); i2.emit();
+        const M33& m = R.asMat33();
+        // conditioning of the regular branch
+        double cond = 1;
+        if (br == "ijk.regular" || br == "iji.regular") {
+            int i = space ? a3 : a1, j = a2, k3 = space ? a1 : a3;
+            if (i == k3) { int k = 3 - i - j; cond = std::sqrt(((double)m[i][j] * m[i][j] + (double)m[i][k] * m[i][k] + (double)m[j][i] * m[j][i] + (double)m[k][i] * m[k][i]) / 2); }
+            else cond = std::sqrt(((double)m[i][i] * m[i][i] + (double)m[i][j] * m[i][j] + (double)m[j][k3] * m[j][k3] + (double)m[k3][k3] * m[k3][k3]) / 2);
+        }
+        double amp = 1.0 / std::max(cond, 1e-12);
+        if (isF()) std::printf("T %.3g %.3g\n", std::min(1.0, 2e-5 * amp), std::min(1.0, 2e-6 * amp));
+        vh::O(fn("toThree")).d((double)back[0]).d((double)back[1]).d((double)back[2]).emit();
+        vh::D(fn("toThree") + ".general." + cls + "." + br);
+        vh::D(fn("toThree") + ".general." + seq);
+        if (a1 != a2 && a2 != a3) {   // proper Euler sequences represent every rotation: the round trip must close
+            Rot R2(bs, back[0], AX(a1), back[1], AX(a2), back[2], AX(a3));
+            vh::P("roundtrip_three_angles_general", fn("toThree") + ".general." + cls + ".rt", maxDiff(R.asMat33(), R2.asMat33()), 64 * eps() * amp);
         }
     }
     static void xyzcs(double t0, double t1, double t2) {
@@ -192,6 +232,11 @@ template <class P> struct H {
         UV u(v);
         V3 Ru = R.asMat33() * u.asVec3();
         vh::P("axis_is_fixed", key + ".axis", (double)(Ru - u.asVec3()).norm(), 64 * eps());
+        // handedness: about a coordinate axis the constructor must equal the elementary rotation by +angle (not -angle)
+        for (int a = 0; a < 3; ++a) if (v[(a + 1) % 3] == 0 && v[(a + 2) % 3] == 0 && v[a] != 0) {
+            Rot E(v[a] > 0 ? th : -th, AX(a));
+            vh::P("angle_axis_handedness", key + ".hand", maxDiff(R.asMat33(), E.asMat33()), 64 * eps());
+        }
         // trace = 1 + 2 cos(angle)
         vh::P("trace_is_1_plus_2cos", key + ".trace", std::fabs((double)R.asMat33().trace() - (1 + 2 * std::cos((double)th))), 64 * eps() + (isF() ? 1e-6 : 0));
     }
@@ -245,6 +290,15 @@ template <class P> struct H {
         vh::D(fn("twoAxes") + "." + cls);
         std::string key = fn("twoAxes") + "." + cls;
         proper(key, R.asMat33(), 1.0 / (double)std::max(sinth, (LD)1e-6));
+        // Rotation.cpp falls back to setRotationFromOneAxis when sin^2 < SqrtEps -- the *double* constant in both
+        // instantiations.  With a threshold appropriate to the precision (sin^2 < sqrt(eps_P)) the residual would stay
+        // below 64 eps_P / sqrt(sqrt(eps_P)); in float the region between the two thresholds is reported separately.
+        if (cls == "nearparallel") {
+            double sThr = std::sqrt(std::sqrt(eps()));
+            if ((double)sinth < sThr && (double)(sinth * sinth) >= (double)SqrtEps)
+                vh::P("orthonormal_with_precision_appropriate_parallel_threshold", fn("twoAxes") + ".nearparallel.below_precision_threshold.ortho",
+                      hasNaN(R.asMat33()) ? NAN : orthoRes(R.asMat33()), 64 * eps() / sThr);
+        }
         vh::P("axis_column_is_input", key + ".col", (double)(V3(R.asMat33()(ai)) - u.asVec3()).norm(), 0.0);
         if (cls == "generic" && ai != aj) {
             // the j column is the normalised component of vj perpendicular to u
@@ -358,7 +412,7 @@ template <class P> struct H {
 
     static void oneCase(vh::Rng& g, bool thoroughAxes) {
         std::string c1, c2, c3;
-        int stream = g.below(isF() ? 12 : 20);
+        int stream = g.below(22);
         switch (stream) {
         case 0: { double t = genAngle(g, c1); aboutAxis(g.below(3), t, c1); break; }
         case 1: { double t1 = genAngle(g, c1), t2 = genAngle(g, c2); two(g.coin(), g.below(3), g.below(3), t1, t2, c1 + "_" + c2, true); break; }
@@ -370,7 +424,9 @@ template <class P> struct H {
         case 5: { double t0 = genAngle(g, c1), t1 = genAngle(g, c2), t2 = genAngle(g, c3); xyzcs(t0, t1, t2); break; }
         case 6: { V4 q = genUnitQuat(g, c1); fromQuat(q, c1, true); if (g.coin()) { V4 r = q * cast(g.range(0.3, 3)); fromQuat(r, "unnormalised", false); quatNormalize(r); } break; }
         case 7: case 8: { Rot R = genRot(g, c1); toQuat(R, c1); break; }
-        case 9: { double t = genAngle(g, c1); angleAxis(t, genVec(g), c1); break; }
+        case 9: { double t = genAngle(g, c1); V3 v = genVec(g);
+            if (g.below(3) == 0) { int a = g.below(3); v = V3(0); v[a] = cast(g.coin() ? 1.5 : -2); c1 += "_alongaxis"; }
+            angleAxis(t, v, c1); break; }
         case 10: { V3 v = genVec(g); int k = g.below(4); c1 = "generic";
             if (k == 0) { int a = g.below(3); v = V3(0); v[a] = cast(g.coin() ? 2 : -2); c1 = "alongaxis"; }
             if (k == 1) { P t = cast(g.range(0.1, 3)); v = V3(t, g.coin() ? t : -t, g.coin() ? t : -t); c1 = "equalcomponents"; }
@@ -391,6 +447,20 @@ template <class P> struct H {
         case 17: { Rot R = genRot(g, c1); double noise = std::pow(10.0, -g.range(3, 9)); M33 M = R.asMat33();
             for (int i = 0; i < 3; ++i) for (int j = 0; j < 3; ++j) M[i][j] += cast(noise * g.range(-1, 1));
             approx(M, noise, c1); break; }
+        case 20: { // extraction from rotations not produced by the same-sequence constructor
+            Rot R = genRot(g, c1); int n = g.below(54); bool space = n >= 27; n %= 27;
+            extractGeneral(R, space, n / 9, (n / 3) % 3, n % 3, "quat_" + c1); break; }
+        case 21: { // near gimbal lock, reached through a product of rotations (entries carry absolute rounding error)
+            int n = g.below(54); bool space = n >= 27; n %= 27; int a1 = n / 9, a2 = (n / 3) % 3, a3 = n % 3;
+            double t1 = genAngle(g, c1), t3 = genAngle(g, c3); std::string c2b;
+            double d = std::pow(10.0, -g.range(isF() ? 1 : 2, isF() ? 6 : 14));
+            double base = (a1 == a3) ? (g.coin() ? 0.0 : PI) : (g.coin() ? PI / 2 : -PI / 2);
+            double t2 = base + (g.coin() ? d : -d);
+            BodyOrSpaceType bs = space ? SpaceRotationSequence : BodyRotationSequence;
+            Rot A(bs, cast(t1), AX(a1), cast(t2), AX(a2), cast(t3), AX(a3));
+            Rot B = genRot(g, c2b);
+            Rot R = (A * B) * ~B;            // = A up to absolute rounding of the entries
+            extractGeneral(R, space, a1, a2, a3, "neargimbal"); break; }
         default: { // systematic coverage of every Euler sequence with generic and gimbal-lock middle angles
             int n = g.below(54); bool space = n >= 27; n %= 27; int a1 = n / 9, a2 = (n / 3) % 3, a3 = n % 3;
             double t1 = genAngle(g, c1), t2 = genAngle(g, c2), t3 = genAngle(g, c3);
